@@ -118,6 +118,22 @@ def address_corpus(tier, seed, model, cross=True):
         d = ".".join([ch * rep] * nlab) + ".com"
         out.add(b"user@" + d.encode("utf-8"))
         out.add(b"user@" + d.encode("utf-8") + b".")
+    # local parts around the 2^8 / 2^15 / 2^16 boundaries (length counters of every width), valid and invalid shapes
+    for n in (255, 256, 257, 32767, 32768, 65535, 65536, 65537, 65536 + 40, 65536 + 64, 65536 + 65, 131072 + 3):
+        for l in (b"a" * n, (b"ab." * n)[:n - 1] + b"c", b'"' + b"a" * (n - 2) + b'"'):
+            out.add(l + b"@a.bc")
+        out.add(b"a" * n + b" @a.bc")
+    # A-labels with every kind of Punycode defect (bad input, overflow, big output, empty, non-LDH, upper case)
+    for lab in (b"xn--99999999", b"xn--0000000000000", b"xn--zzzzzzzzzzzzzzzz", b"xn--a-", b"xn---", b"xn--", b"xn--a", b"xn--1", b"xn--aa--bb",
+                b"XN--P1AI", b"xn--P1AI", b"xn--p1ai-", b"xn--" + b"9" * 59, b"xn--" + b"a" * 59, b"xn--bcher-kva8445foa", b"xn--\x80", b"xn--a.b"):
+        out.add(b"u@" + lab + b".com")
+        out.add(b"u@a." + lab)
+        out.add(b"u@" + lab)
+    # accepted addresses whose domain *spelling* is very long (>= 1 KiB): zero-padded literal, ignorable-padded U-label
+    out.add(b"user@[" + b"0" * 1100 + b"1.2.3.4]")
+    out.add(b"user@[1." + b"0" * 1500 + b"2.3.4]")
+    out.add("user@a".encode() + "\u00ad".encode("utf-8") * 600 + b".com")
+    out.add("user@".encode() + ("a" + "\u200b" * 700 + "b").encode("utf-8") + b".org")
     corp = gen.corpus_addresses()
     out.update(corp)
     for a in corp:
